@@ -31,6 +31,29 @@ class Replay:
         return en[0]
 
 
+class Preempt:
+    """Non-pre-emptive execution (a thread runs until it blocks; the successor is
+    chosen at random) with pre-emptions at k randomly chosen step indices:
+    samples the space of schedules with at most k pre-emptions."""
+
+    def __init__(self, seed, k=2, horizon=300):
+        self.rng = random.Random(seed)
+        self.points = set(self.rng.randrange(0, horizon) for _ in range(k))
+        self.n = -1
+        self.last = None
+
+    def choose(self, S, en):
+        self.n += 1
+        if self.n in self.points and len(en) > 1:
+            c = self.rng.choice([t for t in en if t != self.last] or en)
+        elif self.last in en:
+            c = self.last
+        else:
+            c = self.rng.choice(en)
+        self.last = c
+        return c
+
+
 class Uniform:
     def __init__(self, seed):
         self.rng = random.Random(seed)
@@ -65,6 +88,9 @@ class PCT:
         return best
 
 
+FAIR = 80  # a thread may take this many consecutive steps while others are enabled
+
+
 def run_once(build, policy, budget=4000):
     """build(S) -> ctx with ctx.finish(status) -> result.  Returns (result, steps)
     where steps = [(enabled, chosen)]."""
@@ -72,20 +98,32 @@ def run_once(build, policy, budget=4000):
     dsched.set_sched(S)
     steps = []
     ctx = None
+    streak = [None, 0]
+    lastrun = {}
+
+    def choose(en):
+        if len(steps) >= budget:
+            return None
+        c = policy.choose(S, en)
+        # fairness guard: a spinning thread (e.g. a failing try-lock loop) must not starve the others
+        if c == streak[0]:
+            streak[1] += 1
+            if streak[1] > FAIR and len(en) > 1:
+                others = [t for t in en if t != c]
+                c = min(others, key=lambda t: lastrun.get(t, -1))
+                if hasattr(policy, "last"):
+                    policy.last = c
+        if c != streak[0]:
+            streak[0], streak[1] = c, 1
+        lastrun[c] = len(steps)
+        steps.append((en, c))
+        return c
+
     try:
         ctx = build(S)
-        status = "done"
-        while True:
-            en = S.enabled()
-            if not en:
-                status = "quiescent" if S.live() else "done"
-                break
-            if S.nsteps >= budget:
-                status = "budget"
-                break
-            c = policy.choose(S, en)
-            steps.append((en, c))
-            S.step(c)
+        status = S.run(choose)
+        if status == "stopped":
+            status = "budget"
         result = ctx.finish(status)
     finally:
         try:
